@@ -48,6 +48,10 @@ CHECKS = {
          "Equal and nearly-equal first-order values are built along 24 provenance paths (every array-producing operator, any/union-typed positions, cells, closures, loops) and compared with ==, !=, match value arms, bound/unbound, folded/run-time and nested inside arrays, tuples and structs; ~460k comparisons per quick run, 20 basis values x 24 x 24 path pairs swept completely.",
          "Trusts the JSON value model's equality (IEEE for floats) and that each provenance expression evaluates to the intended value (checked first).",
          "DESIGN.md section 3, C19"),
+ "C18": ("export discovery + exhaustive products of boundary argument pools + proptest random arguments; oracles: declared result type (harness membership), documented results by naive independent implementations (reference model), differential std::fs on a twin directory for fault states",
+         "Every function reachable from `std` (90 exports discovered at run time) is called through the host API and in-language on boundary/random arguments; results must inhabit the declared type, never raise, and match naive re-implementations of the documented behaviour; file-system functions are compared with std::fs on twin trees across 14 path states (all pairs for copy/rename); cgetline is fed generated stdin.",
+         "Transcendental float functions are only compared with the platform libm; fs differential assumes the twin tree is in the same state (rebuilt before every case).",
+         "DESIGN.md section 3, C18"),
 }
 PENDING = {}
 props = [json.loads(l) for l in open(os.path.join(ROOT, "properties.jsonl"))]
